@@ -15,6 +15,8 @@ structure EmitSession where
   /-- the instance's globals and memory, threaded through successive `E mrun` calls (`E ginit`, `E meminit`, `E data`) -/
   gs : Sim.GS := {}
   memMax : Nat := 65536
+  /-- all data segments in index order (`E seg`): what memory.init reads -/
+  segs : List (List UInt8) := []
   deriving Inhabited
 
 def vtOfChar : Char → Option Gen.VT
